@@ -20,6 +20,10 @@ CLAIMED = {
          'C15_entity_returns / C15_wait_tasks_returns / C15_wait_pilots_returns prove for every request form, every trajectory and every timeout that the loops return at most one polling tick after all awaited entities are in a requested or final state; C15_*_timeout bound the return by the timeout; C15_entity_honest and the result clauses show the returned values are the actual states. Non-termination of the pre-fix loops is exactly what these theorems exclude. The real loops run under a patched time.sleep/time.time against scripted trajectories of real Task/Pilot objects.',
          'Trusted: Lean kernel, harness virtual clock; "shortly" = one polling tick; a state entered and left between two polls is invisible to the exact-membership loops; _terminate not set.',
          'DESIGN.md section 6 C15'),
+ 'C16': ('Lean 4 proof (for every number of sides: structural case analysis of the two forwarders, counting lemma over a duplicate-free side list, two-hop quiescence) + exhaustive tie to the real pubsub_fwd closures and an in-memory network of real forwarders',
+         'Theorem C16 proves for any duplicate-free list of sides, any originating side and any origin/fwd markers that the local side sees the message once, every other side exactly once iff it carries the forward flag and no foreign origin, and nobody otherwise; C16_quiescent shows the network is quiet after two hops for any hop budget (no circulation); C16_content shows what remote sides receive. The real closures are obtained from the real Session.crosswire_pubsub and compared on all marker combinations; whole topologies (1 client + 0..4/7 pilots) run through the real _crosswire_proxy wiring.',
+         'Trusted: Lean kernel, harness in-memory bus (lossless, copy per subscriber) in place of ZMQ; distinct module names per side.',
+         'DESIGN.md section 6 C16'),
 }
 
 NOT_YET = {}
